@@ -61,8 +61,11 @@ fn shape_of(spec: &RuleSpec) -> Option<usize> {
     SHAPES.iter().position(|(_, pats)| spec.patterns.len() == pats.len() && spec.patterns.iter().zip(pats.iter()).all(|(a, b)| a == b))
 }
 
-fn gen_rule(r: &mut Rng, id: u32, rated: &[String]) -> RuleSpec {
-    let k = r.usize(SHAPES.len());
+fn gen_rule(r: &mut Rng, id: u32, rated: &[String], no_dday: bool) -> RuleSpec {
+    // (runs that re-install the date spellings do without the shape that consumes DATE tokens: set_date_rule
+    // moves the library's own date rule behind the custom rules, which changes WHICH of two such rules sees a
+    // date first - not something any statement fixes)
+    let k = loop { let k = r.usize(SHAPES.len()); if !(no_dday && k == 10) { break k; } };
     let (_, pats) = SHAPES[k];
     let result = match k {
         0 => if r.chance(1, 2) { ResultSpec::NumberTimes { field: "n".into(), k: (2 + r.below(7)) as f64 } } else { ResultSpec::Number((100 + r.below(900)) as f64) },
@@ -285,6 +288,7 @@ impl Check for C18 {
         let checkpoints = 1 + r.below(3);
         let mut cp_left = checkpoints;
         let type_bias = r.chance(1, 2);
+        let date_rule_run = r.chance(1, 4);
         // what the generator believes is registered (used only to aim probes; the oracle uses the model)
         let mut shapes_seen: Vec<usize> = Vec::new();
         let mut fams_seen: Vec<(String, Vec<usize>)> = Vec::new();
@@ -311,15 +315,17 @@ impl Check for C18 {
                 let op = match r.below(if type_bias { 14 } else { 10 }) {
                     0 | 1 | 2 | 3 => {
                         rule_id += 1;
-                        let rule = gen_rule(&mut r, rule_id, &rated);
+                        let rule = gen_rule(&mut r, rule_id, &rated, date_rule_run);
                         if let Some(k) = shape_of(&rule) { shapes_seen.push(k); }
                         let lang: String = match r.below(12) { 0 => "xx".into(), 1 | 2 => "tr".into(), _ => "en".into() };
                         if lang == "en" { live_en.push(rule.clone()); }
                         AdminOp::AddRule { lang, rule }
                     }
+                    4 if date_rule_run && r.chance(1, 2) => AdminOp::SetDateRule { mdy: false },
                     4 | 5 | 6 => {
                         let lang: String = match r.below(12) { 0 => "xx".into(), 1 => "tr".into(), _ => "en".into() };
-                        let name = if r.chance(1, 8) { "nosuchrule".to_string() } else { format!("rule{}", r.below(5)) };
+                        // (names of the library's own rule functions are no custom rules: deletion must be refused)
+                        let name = if r.chance(1, 8) { r.pick(&["nosuchrule", "convert_money", "small_date", "number_on", "to_unixtime"]).to_string() } else { format!("rule{}", r.below(5)) };
                         if lang == "en" { if let Some(p) = live_en.iter().position(|x| x.name == name) { live_en.remove(p); } }
                         AdminOp::DeleteRule { lang, name }
                     }
@@ -393,7 +399,7 @@ impl Check for C18 {
         let mut reg_time: BTreeMap<u32, i128> = BTreeMap::new();
         // fixed sentinel probes for "rejected calls change nothing"
         let sentinels: Vec<(String, String)> = vec![
-            ("en".into(), "5 zork".into()), ("en".into(), "blip apple".into()), ("en".into(), "7 usd quux".into()), ("en".into(), "2 frob 3".into()), ("en".into(), "4 snarf".into()), ("en".into(), "6 wug 7".into()), ("en".into(), "9 due today".into()), ("en".into(), "çörk 8".into()), ("en".into(), "3 zork + 2 frob 5".into()),
+            ("en".into(), "5 zork".into()), ("en".into(), "blip apple".into()), ("en".into(), "7 usd quux".into()), ("en".into(), "2 frob 3".into()), ("en".into(), "4 snarf".into()), ("en".into(), "6 wug 7".into()), ("en".into(), "9 due today".into()), ("en".into(), "3/3/2021 dday".into()), ("en".into(), "10 usd to try".into()), ("en".into(), "çörk 8".into()), ("en".into(), "3 zork + 2 frob 5".into()),
             ("en".into(), format!("7200 {} to {}", unit_name("famx", 3), unit_name("famx", 1))), ("en".into(), format!("7200 {} to {}", unit_name("famy", 0), unit_name("famy", 2))), ("tr".into(), "5 zork".into()),
         ];
 
@@ -413,6 +419,18 @@ impl Check for C18 {
                         if *exp != o {
                             rep.violate("O-registration", format!("return-value:{}", op.kind()), ei, format!("{:?} returned {:?}, the registration model says {:?}", op, o, exp));
                         }
+                    }
+                    if let AdminOp::SetDateRule { .. } = op {
+                        // re-installing the stock date spellings: no custom rule, no family and no other line may change
+                        rep.count("admin.date_rule_change");
+                        if let Some(b) = before {
+                            let after = eval_set(&l, &sentinels, &ev.clock);
+                            if b != after {
+                                let k = b.iter().zip(after.iter()).position(|(x, y)| x != y).unwrap_or(0);
+                                rep.violate("O-rejected-no-change", "date-rule-call-changed-behaviour".into(), ei, format!("set_date_rule with the stock spellings changed probe {:?} from {} to {}", sentinels[k], b[k].short(), after[k].short()));
+                            }
+                        }
+                        continue;
                     }
                     let accepted = matches!(o, AdminObs::Bool(true));
                     rep.count(if accepted { op.kind() } else { "admin.rejected" });
@@ -648,7 +666,7 @@ impl Check for C18 {
 }
 
 fn is_registration(op: &AdminOp) -> bool {
-    matches!(op, AdminOp::AddRule { .. } | AdminOp::DeleteRule { .. } | AdminOp::AddType { .. } | AdminOp::AddTypeItem(_))
+    matches!(op, AdminOp::AddRule { .. } | AdminOp::DeleteRule { .. } | AdminOp::AddType { .. } | AdminOp::AddTypeItem(_) | AdminOp::SetDateRule { .. })
 }
 
 fn eval_set(w: &World, probes: &[(String, String)], clk: &ClockScript) -> Vec<CallObs> {
